@@ -30,6 +30,39 @@ Fixpoint chain (a b : list line) (ahi bhi i j : nat) (ms : list blk) : Prop :=
 
 Definition blk_size (m : blk) : nat := snd m.
 
+(* DP invariant of findLongestMatch: the entries of j2len before row i.
+   (j,k) is a match of length k ending at a[i-1] and b[j], inside the window. *)
+Definition j2ok (a b : list line) (alo blo bhi : nat) (i : nat) (m : list (nat * nat)) : Prop :=
+  forall j k, In (j, k) m ->
+    1 <= k /\ alo + k <= i /\ blo + k <= S j /\ j < bhi /\
+    forall t, t < k -> nth (i - 1 - t) a [] = nth (j - t) b [].
+
+(* the conditions of the two extension loops of findLongestMatch, as booleans *)
+Definition left_cond (a b : list line) (alo blo : nat) (m : blk) : bool :=
+  let '(i, j, k) := m in (alo <? i) && (blo <? j) && beq (nth (i - 1) a []) (nth (j - 1) b []).
+Definition right_cond (a b : list line) (ahi bhi : nat) (m : blk) : bool :=
+  let '(i, j, k) := m in
+  (i + k <? ahi) && (j + k <? bhi) && beq (nth (i + k) a []) (nth (j + k) b []).
+
+(* adjacent triples never describe adjacent equal blocks (doc comment of getMatchingBlocks) *)
+Fixpoint non_adjacent (l : list blk) : Prop :=
+  match l with
+  | x :: r => match r with
+              | y :: _ => ~ (fst (fst x) + snd x = fst (fst y) /\ snd (fst x) + snd x = snd (fst y))
+              | [] => True
+              end /\ non_adjacent r
+  | [] => True
+  end.
+
+Definition sentinel (a b : list line) : blk := (length a, length b, 0).
+
+(* where a list of blocks ends, starting from (i,j) *)
+Fixpoint blocks_end (i j : nat) (ms : list blk) : nat * nat :=
+  match ms with
+  | [] => (i, j)
+  | (ai, bj, size) :: r => blocks_end (ai + size) (bj + size) r
+  end.
+
 (* opcodes tile the rectangle from (i,j) to (ie,je) *)
 Fixpoint tiles (i j : nat) (ops : list opcode) (ie je : nat) : Prop :=
   match ops with
@@ -93,3 +126,10 @@ Definition kept_a_of (a : list line) (c : opcode) : list line :=
   match op_tag c with Equal => slice a (i1 c) (i2 c) | _ => [] end.
 Definition kept_b_of (b : list line) (c : opcode) : list line :=
   match op_tag c with Equal => slice b (j1 c) (j2 c) | _ => [] end.
+
+(* what remains true of an opcode after GetGroupedOpCodes trimmed it: it lies inside both
+   sequences and, when Equal, still relates two identical slices of the same length *)
+Definition op_ok (a b : list line) (c : opcode) : Prop :=
+  i1 c <= i2 c /\ i2 c <= length a /\ j1 c <= j2 c /\ j2 c <= length b /\
+  (op_tag c = Equal ->
+   i2 c - i1 c = j2 c - j1 c /\ slice a (i1 c) (i2 c) = slice b (j1 c) (j2 c)).
